@@ -17,6 +17,11 @@ out = ["# Sensitivity mutants: which quick checks catch which deliberate breakag
 for name, r in rows.items():
     m = idx.get(name, {})
     base = r.get("baseline", "?")
+    if base in ("skipped", "?"):
+        try:
+            base = json.load(open("/verif/mutants/baseline.json")).get(name, "not run")
+        except Exception:
+            pass
     if base.startswith("fail:"):
         base = "FAILS (" + base[5:].strip(",") + ")" if base[5:].strip(",") else "hangs / times out"
     out.append(f"| {name} | {m.get('file','?').split('/')[-1]} | {base} | {' '.join(m.get('expected', []))} | {r.get('caught','')} | {r.get('missed','')} {r.get('broken','')} |")
